@@ -687,8 +687,10 @@ class RecurFamily(_LazyHeader, Family):
             b = a + rng.choice([chunk + 1, chunk + DAY, 2 * chunk, 2 * chunk + rng.randrange(chunk), 3 * chunk + 5])
             if b > (WIN_HI + 400) * DAY:
                 a, b = a - (b - (WIN_HI + 400) * DAY), (WIN_HI + 400) * DAY
-        if rng.random() < 0.04:
-            # a window starting exactly at timestamp 0 (finite, but falsy in Python)
+        if rng.random() < 0.05 and (rule["tz"] == "UTC" or (rule["freq"] in ("daily", "weekly") and rule["dur"] < 60 * DAY
+                                                             and rule["interval"] * PERIOD_S[rule["freq"]] < 60 * DAY)):
+            # a window starting exactly at timestamp 0 (finite, but falsy in Python); only where the
+            # look-back stays inside the exported zone tables (they start in 1968)
             a = 0
             b = rng.choice([DAY, 7 * DAY, chunk + DAY, 2 * chunk + 5, 3 * chunk])
         if a >= b:
